@@ -3,9 +3,9 @@ import json, os
 import vlib
 
 QUICK = dict(Ops='{"fetch", "push", "merge"}', BranchSrc="{1, 2, 4, 6, 7}", BranchDst="{0, 1, 2, 4, 6}", TagSrc="{0, 2, 6}",
-             TagDst="{0, 2, 4}", Depths="{0, 1}", TagSpecs='{"none", "plain", "force", "cross"}', TwinDst="{0, 1, 6}")
+             TagDst="{0, 2, 4}", Depths="{0, 1}", TagSpecs='{"none", "plain", "force", "cross", "fold"}', TwinDst="{0, 1, 6}")
 THOROUGH = dict(Ops='{"fetch", "push", "merge"}', BranchSrc="{1, 2, 4, 6, 7}", BranchDst="{0, 1, 2, 3, 4, 6, 7}", TagSrc="{0, 2, 4, 6}",
-                TagDst="{0, 2, 4, 7}", Depths="{0, 1, 2}", TagSpecs='{"none", "plain", "force", "cross"}', TwinDst="{0, 1, 4, 6}")
+                TagDst="{0, 2, 4, 7}", Depths="{0, 1, 2}", TagSpecs='{"none", "plain", "force", "cross", "fold"}', TwinDst="{0, 1, 4, 6}")
 
 
 def generate(tier, scen, seed, sample=None):
@@ -25,7 +25,7 @@ def generate(tier, scen, seed, sample=None):
             # depth-limited fetches that may FOLLOW a tag (no refspec covers it) are all kept - a followed tag is
             # the one ref a fetch may put on a commit it received without its table; the rest is sampled
             risky = (d.get("op") == "fetch" and d.get("depth", 0) > 0 and d.get("mode") == "none") or \
-                (d.get("twin", 0) != 0 and (i + seed) % 2 == 0) or d.get("op") == "merge"   # (merges: few and cheap)
+                (d.get("twin", 0) != 0 and (i + seed) % 2 == 0) or d.get("op") == "merge" or d.get("mode") == "fold"   # (merges: few and cheap)
             if sample and (i * 7 + seed) % sample != 0 and not risky:
                 continue
             d["maxpack"] = packs[i % len(packs)]
